@@ -259,12 +259,18 @@ struct PGMIndex<K, Epsilon, EpsilonRecursive, Floating>::Segment {
      * @return the approximate position of the specified key
      */
     inline size_t operator()(const K &k) const {
-        size_t pos;
+        double offset;
         if constexpr (std::is_same_v<K, int64_t> || std::is_same_v<K, int32_t>)
-            pos = size_t(slope * double(std::make_unsigned_t<K>(k) - key));
+            offset = slope * double(std::make_unsigned_t<K>(k) - key);
         else
-            pos = size_t(slope * double(k - key));
-        return pos + intercept;
+            offset = slope * double(k - key);
+        // Converting a double that does not fit into the integer type is undefined behaviour: saturate the offset of
+        // keys that are far from the segment (callers cap the result with the intercept of the next segment) and
+        // treat NaN (slope 0 evaluated at an infinite key) as 0.
+        constexpr double max_offset = double(int64_t(1) << 62);
+        auto pos = offset != offset ? int64_t(0) : int64_t(std::clamp(offset, -max_offset, max_offset));
+        pos += intercept;
+        return pos > 0 ? size_t(pos) : size_t(0);
     }
 };
 
